@@ -1,4 +1,137 @@
-import BoboVerif.Model.Decider
-/-! C04 — placeholder header; theorems are added in Lemmas/Lattice.lean + below. -/
+import BoboVerif.Lemmas.RemoteJoin
+import BoboVerif.Lemmas.Net
+/-!
+C04 — Replicas converge under every message interleaving.
+
+Stated, as the property is, for non-singleton patterns (`NoSing`) with
+finished-run memory enabled (`c.caching`) and large enough (the `NoEviction`
+hypotheses on each step).
+
+1. `remote_is_join`: the remote-update handler of the decider model — the
+   literal list-processing of `on_distributed_update`, for ARBITRARY messages —
+   is the join of the status lattice  unknown < progress(index, history size) <
+   halted < completed.  This is the documented conflict table
+   (docs/distributed.rst): completion wins over halt, halt over progress,
+   progress never moves a run backwards.
+2. Network level (Lemmas/Net.lean, per run key): with ghost `own` = everything
+   an instance announced from its own processing, the invariant J1–J4 is
+   preserved by every step — local announcement, delivery of ANY in-flight
+   message with or without removal (reordering, duplication, re-delivery),
+   snapshots, resyncs — and at quiescence every instance knows exactly the join
+   of everything announced (`net_convergence`).  Only associativity,
+   commutativity and idempotence of ⊔ are used: no enumeration of schedules.
+-/
 namespace Bobo.Decider
+open Bobo.Run Bobo.Lattice
+variable {ε : Type}
+
+/-- **the remote-update handler is the lattice join.** -/
+theorem remote_is_join (c : Cfg ε) (hc : c.caching = true) (hns : NoSing c) (s : DState ε)
+    (comp halt upd : List (Rec ε))
+    (hevC : s.cacheC.length + comp.length ≤ c.maxCache)
+    (hevH : s.cacheH.length + halt.length ≤ c.maxCache) :
+    ∃ s' n, remoteStep c s comp halt upd = some (s', n) ∧
+      ∀ ph pa id, (c.getPattern ph pa).isSome = true →
+        abs s' ph pa id = join (abs s ph pa id) (absMsg comp halt upd ph pa id) := by
+  obtain ⟨s', n, h1, _, h3⟩ := remote_is_join_aux c hc hns s comp halt upd hevC hevH
+  exact ⟨s', n, h1, h3⟩
+
+/-- the handler never lets an exception escape (non-singleton configuration). -/
+theorem remote_total (c : Cfg ε) (hc : c.caching = true) (hns : NoSing c) (s : DState ε)
+    (comp halt upd : List (Rec ε))
+    (hevC : s.cacheC.length + comp.length ≤ c.maxCache)
+    (hevH : s.cacheH.length + halt.length ≤ c.maxCache) :
+    (remoteStep c s comp halt upd).isSome = true := by
+  obtain ⟨s', n, h1, _⟩ := remote_is_join c hc hns s comp halt upd hevC hevH
+  simp [h1]
+
+section conflict_table
+variable (c : Cfg ε) (hc : c.caching = true) (hns : NoSing c) (s s' : DState ε) (n : Notif ε)
+  (comp halt upd : List (Rec ε))
+  (hevC : s.cacheC.length + comp.length ≤ c.maxCache)
+  (hevH : s.cacheH.length + halt.length ≤ c.maxCache)
+  (hstep : remoteStep c s comp halt upd = some (s', n))
+  (ph pa id : String) (hk : (c.getPattern ph pa).isSome = true)
+include hc hns hevC hevH hstep hk
+
+theorem abs_after : abs s' ph pa id = join (abs s ph pa id) (absMsg comp halt upd ph pa id) := by
+  obtain ⟨s2, n2, h1, h2⟩ := remote_is_join c hc hns s comp halt upd hevC hevH
+  rw [hstep] at h1
+  simp only [Option.some.injEq, Prod.mk.injEq] at h1
+  rw [h1.1]; exact h2 ph pa id hk
+
+/-- progress never moves a run backwards; no status is ever lost. -/
+theorem progress_never_backwards : abs s ph pa id ≤ abs s' ph pa id := by
+  rw [abs_after c hc hns s s' n comp halt upd hevC hevH hstep ph pa id hk]; exact le_join_left _ _
+
+/-- a completion named by the message wins over everything. -/
+theorem completion_wins (h : comp.any (·.id == id) = true) : abs s' ph pa id = completed := by
+  rw [abs_after c hc hns s s' n comp halt upd hevC hevH hstep ph pa id hk]
+  have : absMsg comp halt upd ph pa id = completed := by
+    unfold absMsg
+    simp only [h, if_true]
+    refine join_completed_left (join_valid ?_ (joinAll_recSt_valid _))
+    split
+    · exact halted_valid
+    · exact bot_valid
+  rw [this]; exact join_completed_right (abs_valid _ _ _ _)
+
+/-- a halt named by the message wins over progress (and loses against a completion). -/
+theorem halt_beats_progress (h : halt.any (·.id == id) = true) : halted ≤ abs s' ph pa id := by
+  rw [abs_after c hc hns s s' n comp halt upd hevC hevH hstep ph pa id hk]
+  refine le_trans ?_ (le_join_right _ _)
+  unfold absMsg
+  simp only [h, if_true]
+  exact le_trans (le_join_left _ _) (le_join_right _ _)
+
+/-- a message that says nothing new about a key leaves it as it was (stale, repeated, behind). -/
+theorem stale_message_ignored (h : absMsg comp halt upd ph pa id ≤ abs s ph pa id) :
+    abs s' ph pa id = abs s ph pa id := by
+  rw [abs_after c hc hns s s' n comp halt upd hevC hevH hstep ph pa id hk]; exact join_eq_left h
+
+end conflict_table
+
+/-- the order in which two messages are applied does not matter (commutativity), … -/
+theorem remote_order_irrelevant (a b m₁ m₂ x : Status) :
+    join (join x m₁) m₂ = join (join x m₂) m₁ := by
+  rw [join_assoc, join_assoc, join_comm m₁ m₂]
+
+/-- … and a message applied twice has the effect of once (idempotence: re-delivery is harmless). -/
+theorem remote_redelivery_harmless (x m : Status) : join (join x m) m = join x m := by
+  rw [join_assoc, join_idem]
+
 end Bobo.Decider
+
+namespace Bobo.Net
+open Bobo.Lattice
+
+/-- the network invariant holds after every prefix of every schedule. -/
+theorem net_inv_every_step {n : Nat} (steps : List (Step n)) : Inv (run (init n) steps) :=
+  inv_run _ inv_init steps
+
+/-- **convergence**: in every reachable state with nothing in flight, queued or stashed and no
+resync pending, all instances hold the same status for the run — for every interleaving, delay,
+re-ordering and re-delivery. -/
+theorem net_convergence {n : Nat} (steps : List (Step n)) (i j : Fin n)
+    (hq : Quiescent (run (init n) steps)) :
+    (run (init n) steps).know i = (run (init n) steps).know j := convergence steps i j hq
+
+/-- a status known anywhere at quiescence is known everywhere (a run completed anywhere is completed everywhere). -/
+theorem known_anywhere_known_everywhere {n : Nat} (steps : List (Step n)) (i j : Fin n) (x : Status)
+    (hq : Quiescent (run (init n) steps)) (h : x ≤ (run (init n) steps).know i) :
+    x ≤ (run (init n) steps).know j := by
+  rw [← net_convergence steps i j hq]; exact h
+
+/-! non-vacuity: two instances, a racing update and completion, a duplicate delivery -/
+example : (run (init 2) [.say 0 (active 1 1), .say 1 completed, .deliver 0 1 0 false, .deliver 0 1 0 true,
+    .deliver 1 0 0 true]).know 0 = completed := by decide
+example : Quiescent (run (init 2) [.say 0 (active 1 1), .say 1 completed, .deliver 0 1 0 false, .deliver 0 1 0 true,
+    .deliver 1 0 0 true]) := by
+  intro i j _
+  match i, j with
+  | 0, 0 => decide
+  | 0, 1 => decide
+  | 1, 0 => decide
+  | 1, 1 => decide
+
+end Bobo.Net
